@@ -102,6 +102,20 @@ def gen(ms, smax, bmax, kinds, ncols, pads, alias, alias_max_m=9):
   # num_columns inferred from the first batch (num_columns=0), incl. the empty stream
   s.append(F('ob_rebatch_infer_columns', 's0: int, s1: int, bs: int', f'0 <= s0 <= {smax} and 0 <= s1 <= {smax} and 1 <= bs <= {bmax}',
              "return _check([s0, s1], bs, 'list', 2, None, [False], 0)"))
+  # column alignment: a batch whose columns have different row counts is rejected before anything of it is emitted
+  s.append(F('ob_rebatch_ragged_rejected', 's0: int, d: int, t: int, bs: int', f'0 <= s0 <= {smax} and 1 <= d <= 2 and 0 <= t <= {smax} and 1 <= bs <= {bmax}', """
+      good = (list(range(s0)), list(range(100, 100 + s0)))
+      bad = (list(range(s0, s0 + t)), list(range(100 + s0, 100 + s0 + t + d)))        # second column d rows longer
+      out = []
+      try:
+        for b in iter_utils.rebatched_args(iter([good, bad]), bs, num_columns=2):
+          out.append(b)
+        return False                                                                  # ragged input must not pass silently
+      except ValueError:
+        pass
+      rows0 = [x for b in out for x in b[0]]; rows1 = [x for b in out for x in b[1]]
+      # whatever was emitted before the rejection are aligned rows of the good batch only
+      return rows0 == list(range(len(rows0))) and rows1 == [100 + x for x in rows0] and len(rows0) <= s0"""))
   s.append(F('ob_rebatch_empty_stream_infer', 'bs: int', f'1 <= bs <= {bmax}',
              "return list(iter_utils.rebatched_args(iter([]), bs)) == []"))
   s.append(F('ob_rebatch_passthrough', 's0: int, s1: int', f'0 <= s0 <= {smax} and 0 <= s1 <= {smax}', """
@@ -176,7 +190,7 @@ def run(tier):
              note='ms = numbers of input batches; each batch size 0..smax, target 1..bmax (0 = pass-through); '
                   'alias: a batch may be the same object as its predecessor')
   rep.outside('numpy-array columns (np.concatenate/np.pad are C code; replayed concretely only)', 'more input batches / larger sizes than the bounds',
-              'heterogeneous column lengths (rejected with ValueError by the implementation)')
+              'what happens after a ragged batch was rejected (the rejection itself is an obligation: ob_rebatch_ragged_rejected)')
   rep.assume('np.zeros(int) batch-size vector replaced by a pure-Python int vector during symbolic runs (stub: _NpShim); '
              'concrete replays use real numpy', 'CrossHair/z3 sound for int/list semantics')
   only = os.environ.get('VF_ONLY')
